@@ -174,6 +174,10 @@ def run_maxdist(case):
     res.nontrivial = cut and len(case['s1']) >= 2 and len(case['s2']) >= 2
     if refs[0] != ref.inf:
         res.cls('kept' if refs[0] < m else 'abandoned')
+    lens = {len(case['s1']), len(case['s2']), len(case['s3'])}
+    pr_ok = case['max_step'] is None and (not case['penalty'] or len(lens) == 1)
+    if pr_ok:
+        res.cls('also-with-pruning')
     for name, fn in _routines(case):
         nvals = 1 if 'matrix' not in name else 3
         base, exc = libcall(fn)
@@ -195,6 +199,22 @@ def run_maxdist(case):
                 res.fail('max_dist:%s:%s' % (name, 'lost' if exp != ref.inf else 'not-abandoned'),
                          '%s with max_dist=%r -> %r, unbounded value %r (entry %d)' % (name, m, g, b, k))
                 break
+        # the same threshold with pruning switched on as well (the property quantifies thresholds x pruning on/off):
+        # where the Euclidean distance is a valid upper bound, the tighter of the two bounds decides and the answer is
+        # the same as with the threshold alone
+        if pr_ok:
+            got, exc = libcall(fn, max_dist=m, use_pruning=True)
+            res.count('routine_calls_with_pruning')
+            if exc:
+                res.fail('max_dist+pruning:%s:%s' % (name, exc), 'raised with max_dist=%r and use_pruning=True' % (m,))
+                continue
+            for k, (g, b) in enumerate(zip(got, base)):
+                exp = b if b < m else ref.inf
+                if not ((g == exp) or (g != g and exp != exp)):
+                    res.fail('max_dist+pruning:%s:%s' % (name, 'lost' if exp != ref.inf else 'not-abandoned'),
+                             '%s with max_dist=%r and use_pruning=True -> %r, unbounded value %r (entry %d)'
+                             % (name, m, g, b, k))
+                    break
     return res
 
 
